@@ -66,4 +66,78 @@ def ci_lambda_table(repo):
     return ["/-- wrapper name ↦ lambda_ literal passed to power_divergence in CITests.py -/",
             f"def ciLambdaTable : List (String × String) := [{items}]", ""]
 
-ALL = [valid_cpd_atol, eq_atol, ci_lambda_table]
+
+def _kw_int_in_func(repo, rel, cls, func, callee, kw):
+    """integer literal of keyword `kw` in the call `callee(...)` inside cls.func"""
+    t = _src(repo, rel)
+    fn = _find_func(t, cls, func)
+    if fn is None:
+        return None
+    for n in ast.walk(fn):
+        if isinstance(n, ast.Call):
+            name = getattr(n.func, "attr", None) or getattr(n.func, "id", None)
+            if name == callee:
+                for k in n.keywords:
+                    if k.arg == kw and isinstance(k.value, ast.Constant) and isinstance(k.value.value, int):
+                        return k.value.value
+    return None
+
+def _opt_nat(name, doc, val):
+    return [f"/-- {doc} -/", f"def {name} : Option Nat := " + ("none" if val is None else f"some {val}"), ""]
+
+def net_decimals(repo):
+    """number of decimals NETWriter keeps when it prints a table (C09: the 5e-5 round-trip bound)"""
+    v = _kw_int_in_func(repo, "pgmpy/readwrite/NET.py", "NETWriter", "net_cpd", "to_numpy", "decimals")
+    return _opt_nat("netDecimals", "`decimals=` in NETWriter.net_cpd", v)
+
+def lg_round_decimals(repo):
+    """decimals to which to_joint_gaussian rounds mean and covariance (C20 tolerance model)"""
+    t = _src(repo, "pgmpy/models/LinearGaussianBayesianNetwork.py")
+    fn = _find_func(t, "LinearGaussianBayesianNetwork", "to_joint_gaussian")
+    vals = set()
+    if fn is not None:
+        for n in ast.walk(fn):
+            if isinstance(n, ast.Call) and getattr(n.func, "attr", None) == "round":
+                for k in n.keywords:
+                    if k.arg == "decimals" and isinstance(k.value, ast.Constant):
+                        vals.add(k.value.value)
+    v = vals.pop() if len(vals) == 1 else None
+    return _opt_nat("lgRoundDecimals", "`.round(decimals=…)` in LinearGaussianBayesianNetwork.to_joint_gaussian", v)
+
+def _defaults(repo, rel, cls, func):
+    t = _src(repo, rel)
+    fn = _find_func(t, cls, func)
+    out = {}
+    if fn is None:
+        return out
+    args = fn.args.args
+    defs = fn.args.defaults
+    for a, d in zip(args[len(args) - len(defs):], defs):
+        if isinstance(d, ast.Constant):
+            out[a.arg] = d.value
+    return out
+
+def hc_defaults(repo):
+    """default epsilon / max_iter / tabu_length of HillClimbSearch.estimate (C11: the loop the Lean model runs)"""
+    from fractions import Fraction
+    d = _defaults(repo, "pgmpy/estimators/HillClimbSearch.py", "HillClimbSearch", "estimate")
+    items = []
+    for k in ("epsilon", "max_iter", "tabu_length"):
+        if k in d and isinstance(d[k], (int, float)):
+            fr = Fraction(repr(d[k]))
+            items.append(f'("{k}", {fr.numerator}, {fr.denominator})')
+    return ["/-- defaults of HillClimbSearch.estimate as (name, numerator, denominator) -/",
+            "def hcDefaults : List (String × Nat × Nat) := [" + ", ".join(items) + "]", ""]
+
+def score_defaults(repo):
+    """default LRU size of ScoreCache and default equivalent sample size of BDeuScore / BDsScore (C10)"""
+    a = _defaults(repo, "pgmpy/estimators/ScoreCache.py", "LRUCache", "__init__").get("max_size")
+    b = _defaults(repo, "pgmpy/estimators/ScoreCache.py", "ScoreCache", "__init__").get("max_size")
+    e1 = _defaults(repo, "pgmpy/estimators/StructureScore.py", "BDeuScore", "__init__").get("equivalent_sample_size")
+    e2 = _defaults(repo, "pgmpy/estimators/StructureScore.py", "BDsScore", "__init__").get("equivalent_sample_size")
+    items = [("LRUCache.max_size", a), ("ScoreCache.max_size", b), ("BDeuScore.ess", e1), ("BDsScore.ess", e2)]
+    body = ", ".join(f'("{n}", {v})' for n, v in items if isinstance(v, int))
+    return ["/-- integer defaults of the score cache and the Bayesian-Dirichlet scores -/",
+            "def scoreDefaults : List (String × Nat) := [" + body + "]", ""]
+
+ALL = [valid_cpd_atol, eq_atol, ci_lambda_table, net_decimals, lg_round_decimals, hc_defaults, score_defaults]
